@@ -29,3 +29,4 @@ def check(run, model, tier):
     # fall through to the entry loop with index -1 (it would enter a stale state and ask for the initial transition again, for ever)
     hsmrules.record_buffer_obligations(run, model, 'dispatch')
     run.assume('H1: top answers IGNORED to SUPER queries and does not move the cursor; a well-formed handler moves the cursor to its parent')
+    hsmrules.protocol_census(run, model)
